@@ -1496,19 +1496,24 @@ Example C12_sig_example :
        mkParam 9 VP None None UEmpty; mkParam 4 KO None None UEmpty;
        mkParam 2 KO (Some 102) None UEmpty; mkParam 10 VK None None UEmpty],
       [(1%nat, mkParam 2 PK (Some 102) None UEmpty)]).
-Proof. repeat split; reflexivity. Qed.
+Proof. repeat split; vm_compute; reflexivity. Qed.
+
+Definition ex_adv : list param :=
+  [mkParam 1 PO None None UEmpty; mkParam 3 PK (Some 103) None UEmpty;
+   mkParam 9 VP None None UEmpty; mkParam 4 KO None None UEmpty;
+   mkParam 2 KO (Some 102) None UEmpty; mkParam 10 VK None None UEmpty].
+Definition ex_kp : list (nat * param) := [(1%nat, mkParam 2 PK (Some 102) None UEmpty)].
 
 Example C12_call_example :
-  exists adv kp,
-    prepare ex_ps [1] [2] = Ok (adv, kp) /\
-    named_posonly adv [1] [(4, 304); (2, 302); (7, 307)] = false /\
-    decorated_call ex_ps kp [1] [200; 201; 202] [(4, 304); (2, 302); (7, 307)]
-    = Some [(1, BV 200); (2, BV 302); (3, BV 201); (9, BTup [202]); (4, BV 304);
-            (10, BDict [(7, 307)])] /\
-    bindv adv [200; 201; 202] [(4, 304); (2, 302); (7, 307)]
-    = Some [(1, BV 200); (3, BV 201); (9, BTup [202]); (4, BV 304); (2, BV 302);
-            (10, BDict [(7, 307)])].
-Proof. eexists. eexists. split; [reflexivity|]. repeat split; reflexivity. Qed.
+  prepare ex_ps [1] [2] = Ok (ex_adv, ex_kp) /\
+  named_posonly ex_adv [1] [(4, 304); (2, 302); (7, 307)] = false /\
+  decorated_call ex_ps ex_kp [1] [200; 201; 202] [(4, 304); (2, 302); (7, 307)]
+  = Some [(1, BV 200); (2, BV 302); (3, BV 201); (9, BTup [202]); (4, BV 304);
+          (10, BDict [(7, 307)])] /\
+  bindv ex_adv [200; 201; 202] [(4, 304); (2, 302); (7, 307)]
+  = Some [(1, BV 200); (3, BV 201); (9, BTup [202]); (4, BV 304); (2, BV 302);
+          (10, BDict [(7, 307)])].
+Proof. repeat split; vm_compute; reflexivity. Qed.
 
 Example C12_call_bound_example :
   let ps := [mkParam 13 PK None None UEmpty; mkParam 1 PK None None UEmpty;
@@ -1518,7 +1523,7 @@ Example C12_call_bound_example :
   Ok ([mkParam 1 PO None None UEmpty; mkParam 2 PK (Some 102) None UEmpty], [], [1]) /\
   kmem 13 [(2, 302)] = false /\
   named_posonly [mkParam 1 PO None None UEmpty; mkParam 2 PK (Some 102) None UEmpty] [1] [(2, 302)] = false.
-Proof. repeat split; reflexivity. Qed.
+Proof. repeat split; vm_compute; reflexivity. Qed.
 
 Example C12_sig_auto_example :
   decorate ex_ps (FAuto [2]) =
@@ -1527,7 +1532,7 @@ Example C12_sig_auto_example :
        mkParam 3 KO (Some 103) None UEmpty; mkParam 10 VK None None UEmpty],
       [(2%nat, mkParam 3 PK (Some 103) None UEmpty)], []) /\
   decorate ex_ps (FAuto [1]) = Err ValueErr.
-Proof. split; reflexivity. Qed.
+Proof. split; vm_compute; reflexivity. Qed.
 
 Print Assumptions C12_sig.
 Print Assumptions C12_call.
